@@ -153,9 +153,19 @@ def t_nop(rt):
 
 
 @asynq_dec()
-def t_runaway(rt, n):
+def t_runaway(rt, n, mixed=0):
     if n <= 0:
         return 0
+    if mixed == 1:
+        # a batch item written before the recursive call: the scheduler's stack holds non-task entries too
+        got = yield HItem(rt, 0, "ra%d" % n, ("ra", n)), t_runaway.asynq(rt, n - 1, mixed)
+        return got[1] + 1
+    if mixed == 2:
+        got = yield Future(lambda: 0), t_runaway.asynq(rt, n - 1, mixed)
+        return got[1] + 1
+    if mixed == 3:
+        got = yield {"a": ConstFuture(0), "b": t_runaway.asynq(rt, n - 1, mixed), "c": Future(lambda: 1)}
+        return got["b"] + 1
     v = yield t_runaway.asynq(rt, n - 1)
     return v + 1
 
@@ -727,6 +737,13 @@ class HarnessRT(object):
         return HFutureResult(value)
 
     def make_exc(self, fr, site, cls):
+        if cls == "cached":
+            # one module-level error object raised again and again (a cached / singleton failure)
+            e = self.excs.get(("cached",))
+            if e is None:
+                e = self.excs[("cached",)] = lang.make_user_exc("exc", ("cached",))
+            self.n_cached_raises = getattr(self, "n_cached_raises", 0) + 1
+            return e
         tag = ("raise", site, fr.path)
         e = lang.make_user_exc(cls, tag)
         self.excs[tag] = e
@@ -826,10 +843,10 @@ class HarnessRT(object):
         elif kind == "lazy":
             leaf = HLeaf(kind, l, pos, self._lazy(l[1], inst, l[2]), inst)
         elif kind == "runaway":
-            leaf = HLeaf(kind, l, pos, t_runaway.asynq(self, l[1]), inst)
+            leaf = HLeaf(kind, l, pos, t_runaway.asynq(self, l[1], l[2] if len(l) > 2 else 0), inst)
         elif kind == "lazyrunaway":
             # a lazily computed future whose provider calls asynq code synchronously
-            leaf = HLeaf(kind, l, pos, Future(lambda n=l[1]: t_runaway(self, n)), inst)
+            leaf = HLeaf(kind, l, pos, Future(lambda n=l[1], m=(l[2] if len(l) > 2 else 0): t_runaway(self, n, m)), inst)
         else:
             raise HarnessFault("leaf %r" % (kind,))
         fr.futs.append(leaf)
